@@ -393,11 +393,25 @@ pub async fn record_converge() {
                     row.push(held_full(m, key.0, key.1).await);
                 }
                 let equal = row.iter().all(|x| *x == row[0]);
-                let as_expected = row.iter().all(|x| match (x, want) {
+                let mut as_expected = row.iter().all(|x| match (x, want) {
                     (Some((_, false, d)), Some(w)) => d == w,
                     (Some((_, true, _)), None) | (None, None) => true,
                     _ => false,
                 });
+                // the same through the public read API of every node: `get`, `get_many` and `iter_metadata` of its handle
+                for m in &members {
+                    let h = m.store.handle_with_keyspace(key.0);
+                    let one = h.get(key.1).await.ok().flatten().map(|d| dig(d.data()));
+                    let many: Vec<String> = h.get_many(vec![key.1]).await.map(|it| it.map(|d| dig(d.data())).collect()).unwrap_or_default();
+                    let listed = m.store.handle().iter_metadata(key.0).await.map(|mut it| it.find(|e| e.0 == key.1)).ok().flatten();
+                    let ok = match want {
+                        Some(w) => one.as_ref() == Some(w) && many == vec![w.clone()] && matches!(listed, Some((_, _, false))),
+                        None => one.is_none() && many.is_empty() && !matches!(listed, Some((_, _, false))),
+                    };
+                    if !ok {
+                        as_expected = false;
+                    }
+                }
                 if !equal || !as_expected {
                     all_good = false;
                 }
